@@ -937,7 +937,7 @@ func Run(r *ev.Run) {
 	// work items, one worker process each (the net hooks and the teamserver globals are per
 	// process): conformance, integrity, and the schedule trees of the table scenarios, each
 	// tree split into shards (explore.Tree.RunShard) - 1 shard per classic scenario in quick
-	// and 4 in thorough, 4 for the two-handshakes scenario, 1 / 4 for the three-clients one
+	// and 4 in thorough, 4 / 8 for the two-handshakes scenario, 1 / 4 for the three-clients one
 	ts := 1
 	if r.Thorough() {
 		ts = 4
@@ -954,10 +954,17 @@ func Run(r *ev.Run) {
 		k := k
 		items = append(items, func(r *ev.Run) { runTablesThreeClients(r, k, ts) })
 	}
-	for k := 0; k < 4; k++ {
+	hs := 4
+	if r.Thorough() {
+		hs = 8 // bound 2 on the narrow focus is ~1.8 M executions: eight shards keep each under the deadline on a busy machine
+	}
+	for k := 0; k < hs; k++ {
 		k := k
-		items = append(items, func(r *ev.Run) { runTablesTwoHandshakes(r, k, 4, false) })
-		if r.Thorough() {
+		items = append(items, func(r *ev.Run) { runTablesTwoHandshakes(r, k, hs, false) })
+	}
+	if r.Thorough() {
+		for k := 0; k < 4; k++ {
+			k := k
 			items = append(items, func(r *ev.Run) { runTablesTwoHandshakes(r, k, 4, true) })
 		}
 	}
